@@ -41,6 +41,7 @@ pub fn run(args: &[String]) -> bool {
         "guard-batch" => sc::dualmsm_batch_verify_lengths(n(1) as usize, n(2) as usize),
         "zkir-into-bytes-biguint" => sc::zkir_into_bytes_biguint(n(1) as u32, n(2) as usize),
         "zkir-into-bytes-native" => sc::zkir_into_bytes_native_offcircuit(n(1) as usize),
+        "g1-decode-offsubgroup" => sc::g1_decoder_accepts_outside_subgroup(args.get(1).map(|s| s.as_str()).unwrap_or("hashable")),
         "zkir-mod-exp" => sc::zkir_mod_exp_offcircuit(n(1), n(2), n(3)),
         _ => {
             println!("unknown scenario");
